@@ -8,7 +8,7 @@ CORR_MODULES = ["Sched.StatusCondCorr"]
 PREFIX = "C32"
 CASE_TYPE = "C32_case"
 HARNESS = "c32"
-KNOWN = {1: "C32-enable-no-notify"}
+KNOWN = {}
 RULE = ("one case = one operation sequence (5-60 ops) on 1-3 real DcpsStatusCondition objects with 1-3 real "
         "notification channels (D cases) or on real WaitSetAsync::wait futures polled by hand (W cases); after "
         "every op the trigger value of every condition and the wake count of every waker are observed; distinct = "
